@@ -92,6 +92,7 @@ type c05kCluster struct {
 	services []*c05kService
 	devices  map[string]map[string]int64 // device -> block hash -> mtime
 	blocks   []arvados.SizedDigest
+	sized    map[string]arvados.SizedDigest // hash -> hash+size
 	coll     *c06Sim
 	oldBase  int64
 	newBase  int64
@@ -261,7 +262,7 @@ func (cl *c05kCluster) RoundTrip(req *http.Request) (*http.Response, error) {
 		sort.Strings(hs)
 		text := ""
 		for _, h := range hs {
-			text += fmt.Sprintf("%s+1 %d\n", h, cl.devices[idxMount.devKey][h])
+			text += fmt.Sprintf("%s %d\n", cl.sized[h], cl.devices[idxMount.devKey][h])
 		}
 		return text + "\n"
 	}
@@ -421,7 +422,7 @@ func TestVerifC05Seq(t *testing.T) {
 
 func c05kSequence(t *testing.T, r *vRand, i int, lostFile string) (string, map[string]interface{}, []string, bool) {
 	now := time.Now()
-	cl := &c05kCluster{t: t, devices: map[string]map[string]int64{}, ksPages: 1 + r.Intn(2),
+	cl := &c05kCluster{t: t, devices: map[string]map[string]int64{}, sized: map[string]arvados.SizedDigest{}, ksPages: 1 + r.Intn(2),
 		oldBase: now.Add(-30 * 24 * time.Hour).UnixNano(), newBase: now.Add(-time.Hour).UnixNano()}
 	stratum := []string{"stable-service-list", "changing-service-list", "clear-fault-after-change", "random", "lists-from-earlier-process"}[i%5]
 	// in the stratum that fails a clearing PUT, most blocks are over-replicated (old replicas on most devices, modest
@@ -478,8 +479,21 @@ func c05kSequence(t *testing.T, r *vRand, i int, lostFile string) (string, map[s
 	sort.Strings(devKeys)
 	for b := 0; b < nblk; b++ {
 		blk := c05Blk(r.U64() % 100000)
+		zr := vNewRand(r.U64()) // size hints (incl. the empty block) and blocks without any replica
+		if b > 0 || zr.Chance(1, 2) {
+			blk = c05Resize(blk, zr)
+			for _, o := range cl.blocks {
+				if o[:32] == blk[:32] {
+					blk = c05Blk(uint64(900000 + b))
+				}
+			}
+		}
 		cl.blocks = append(cl.blocks, blk)
+		cl.sized[string(blk[:32])] = blk
 		p := 1 + r.Intn(3) // replica density p/4
+		if !dense && zr.Chance(1, 4) {
+			p = 0 // a block that exists nowhere: lost if referenced
+		}
 		if dense {
 			p = 3
 		}
@@ -527,7 +541,7 @@ func c05kSequence(t *testing.T, r *vRand, i int, lostFile string) (string, map[s
 			c.blocks = []int{0}
 			mt += " " + string(cl.blocks[0])
 		}
-		mt += fmt.Sprintf(" 0:%d:f\n", len(c.blocks))
+		mt += " 0:0:f\n"
 		sim.table[u] = 1 + u/2
 		sim.manifest[u] = mt
 		ex := map[string]interface{}{}
